@@ -35,6 +35,8 @@ CAT = {
     'RaiseMute': (I1, 'RaiseMute', '', '', 'raise', 'Err.Mute', 1),
     # an exception class that lives inside the exported class: named by its own name, like any other
     'RaiseNested': (I1, 'RaiseNested', '', '', 'raise', 'Err.Nested', 1),
+    # an exception text that cannot be encoded as it is (a lone surrogate, as in a file name read with surrogateescape)
+    'RaiseSurrogate': (I1, 'RaiseSurrogate', '', '', 'raise', 'Err.Surrogate', 1),
     'Unenc': (I1, 'Unenc', '', 'u', 'unencodable', 'Err.Unencodable', 1),
     'Arity': (I1, 'Arity', '', 'us', 'unencodable', 'Err.Unencodable', 1),
     'Caller': (I1, 'Caller', '', 's', 'value', 'Caller', 1),
@@ -86,8 +88,9 @@ def build():
 
         @objects.dbusMethod(I1, 'Inh')
         def inherited(self):
-            self.log('Inh', (), None)
-            return 'inh'
+            # (the subclass overrides this implementation without repeating the decorator: the override is what runs)
+            self.log('InhBase', (), None)
+            return 'inh of the base class'
 
     class Helper:
         @objects.dbusMethod(I1, 'Mix')
@@ -97,6 +100,10 @@ def build():
 
     class Sub(Base, Helper):
         dbusInterfaces = [i1, i2]
+
+        def inherited(self):
+            self.log('Inh', (), None)
+            return 'inh'
 
         def dbus_Val(self, s):
             self.log('Val', (s,), None)
@@ -148,6 +155,10 @@ def build():
         def dbus_RaiseNested(self):
             self.log('RaiseNested', (), None)
             raise self.Locked('shut')
+
+        def dbus_RaiseSurrogate(self):
+            self.log('RaiseSurrogate', (), None)
+            raise LookupError('no such file: caf\udce9')
 
         def dbus_RaiseMute(self):
             self.log('RaiseMute', (), None)
@@ -337,6 +348,8 @@ class ObjectsDriver:
                 return 'Err.Nul'
             if n == 'org.txdbus.PythonException.Locked' and text == 'shut':
                 return 'Err.Nested'
+            if n == 'org.txdbus.PythonException.LookupError' and isinstance(text, str) and 'no such file' in text:
+                return 'Err.Surrogate'
             if n == 'org.txdbus.PythonException.MuteError' and isinstance(text, str):
                 return 'Err.Mute'
             key = find_key(c)
